@@ -4,6 +4,7 @@ advance beyond what chunk_mut offered, and lower rem() by exactly the number of 
 (put: also consume exactly that many source bytes).  Contents are the Kani side
 (kx_default_put_*_loop*, bounded).  No blanket `&mut T` impl in this unit (see buf_fwd.py for why)."""
 from vx import Unit, Fn
+import _prophecy
 
 U = Unit("bufmut_default", props=["C11"])
 U.assumptions = [
@@ -48,17 +49,8 @@ fn panic_advance(error_info: &TryGetError) -> !
 
 pub open spec fn sat(a: nat) -> nat { if a > usize::MAX as nat { usize::MAX as nat } else { a } }
 
-// the reading side (contract as in unit buf_core)
-pub trait Buf {
-    spec fn seq(&self) -> Seq<u8>;
-    spec fn wf(&self) -> bool;
-    fn remaining(&self) -> (r: usize) requires self.wf(), ensures r == self.seq().len();
-    fn chunk(&self) -> (r: &[u8]) requires self.wf(), ensures r@.is_prefix_of(self.seq()), (r@.len() == 0 <==> self.seq().len() == 0);
-    fn advance(&mut self, cnt: usize)
-        requires (*old(self)).wf(), cnt <= (*old(self)).seq().len(),
-        ensures (*final(self)).wf(), (*final(self)).seq() == (*old(self)).seq().skip(cnt as int);
-    fn has_remaining(&self) -> (r: bool) requires self.wf(), ensures r == (self.seq().len() > 0);
-}
+// the reading side (contract as in units buf_core / buf_copy, incl. the prophetic part)
+''' + _prophecy.TRAIT_TEXT + r'''
 ''')
 U.struct("src/lib.rs", "struct TryGetError")
 # the trait lives in a module so that its `super::Buf` bound resolves as in the crate (buf::buf_mut -> buf::Buf)
@@ -79,13 +71,19 @@ ensures (*final(self)).rem() == (*old(self)).rem() - src@.len(),""",
 decreases src@.len(),"""},
         hints=[("body_start", "", "let ghost src0 = src@;")]),
     "put": Fn(spec="""requires src.wf(), (*old(self)).rem() >= src.seq().len(),
-ensures (*final(self)).rem() == (*old(self)).rem() - src.seq().len(),""",
+ensures (*final(self)).rem() == (*old(self)).rem() - src.seq().len(),
+    // the source is drained exactly (see contracts/_prophecy.py)
+    src.fin_adv(src.seq().len() as int),""",
         loops={1: """invariant
     src.wf(),
     src.seq().len() <= n0,
     self.rem() >= src.seq().len(),
     self.rem() + (n0 - src.seq().len()) == (*old(self)).rem(),
+    done + src.seq().len() == n0,
+    forall|n: int| 0 <= n <= src.seq().len() && #[trigger] src.fin_adv(n) ==> srcv0.fin_adv(n + done),
 decreases src.seq().len(),"""},
-        hints=[("body_start", "", "let ghost n0 = src.seq().len();")]),
+        hints=[("body_start", "", "let ghost n0 = src.seq().len(); let ghost srcv0 = src; let ghost mut done: int = 0;"),
+               ("loop_end", "1", "proof { done = done + cnt; }"),
+               ("body_end", "", "proof { src.lemma_resolved(); }")]),
 })
 U.text("} // mod buf_mut")
